@@ -431,7 +431,7 @@ impl Prop for C08 {
         }
         // ---- family 5a'': fan-out (valid modules in which a definition is referenced twice per level): the work must not
         // double with every level
-        for depth in if tier.thorough() { vec![4usize, 8, 16, 20, 24] } else { vec![4usize, 8, 16, 20] } {
+        for depth in if tier.thorough() { vec![4usize, 8, 16, 20, 24] } else { vec![4usize, 8, 16] } {
             let chain = |f: &dyn Fn(usize) -> String, last: &str| -> String { (0..depth).map(|i| f(i)).collect::<Vec<_>>().join("\n") + "\n" + last };
             for (lab, body) in [
                 ("fanout:diamond-types", chain(&|i| format!("T{i} ::= SEQUENCE {{ a T{}, b T{} }}", i + 1, i + 1), &format!("T{depth} ::= INTEGER"))),
